@@ -111,6 +111,10 @@ def build_repo(variant="asan"):
         flags += SAN
     elif variant == "tsan":
         flags += ["-fsanitize=thread"]
+    elif variant == "patinit":
+        flags += ["-ftrivial-auto-var-init=pattern"]
+    elif variant == "zeroinit":
+        flags += ["-ftrivial-auto-var-init=zero", "-enable-trivial-auto-var-init-zero-knowing-it-will-be-removed-from-clang"]
     mk = ["OBJS=" + " ".join(s[:-2] + ".o" for s in LIB_SOURCES),
           "all: libvorbisall.a",
           "libvorbisall.a: $(OBJS)", "\tar rcs $@ $(OBJS)"]
@@ -127,7 +131,7 @@ def build_repo(variant="asan"):
         shutil.rmtree(tmp, ignore_errors=True)
     else:
         os.rename(tmp, d)
-    _prune_builds(6)
+    _prune_builds(12)
     return d
 
 
@@ -154,6 +158,10 @@ def build_harness(name, sources=None, variant="asan", extra=(), wrap_malloc=Fals
         flags += SAN
     elif variant == "tsan":
         flags += ["-fsanitize=thread"]
+    elif variant == "patinit":
+        flags += ["-ftrivial-auto-var-init=pattern"]
+    elif variant == "zeroinit":
+        flags += ["-ftrivial-auto-var-init=zero", "-enable-trivial-auto-var-init-zero-knowing-it-will-be-removed-from-clang"]
     cmd = ["clang"] + flags + list(extra) + sources + \
           [os.path.join(libdir, "libvorbisall.a"), OGG_A, "-lm", "-lpthread", "-o", exe + ".tmp"]
     rc, out, err = run(cmd, timeout=600)
